@@ -112,7 +112,8 @@ type machine struct {
 	serveRefused             bool
 }
 
-var allRIDs = []string{"svc.r.1", "svc.r.2", "svc.s.1", "svc.s.2", "svc.t.a.1", "svc.t.a.2", "svc.t.b.1", "svc.p.1", "svc.m.1", "svc.m.2", "svc.nosuch.1"}
+var allRIDs = []string{"svc.r.1", "svc.r.2", "svc.s.1", "svc.s.2", "svc.t.a.1", "svc.t.a.2", "svc.t.b.1", "svc.p.1", "svc.m.1", "svc.m.2", "svc.nosuch.1",
+	"svc.m.w.a.x", "svc.m.w.a.y.z", "svc.m.fixed", "svc.m.q.1"}
 
 func (m *machine) viol(prop, format string, a ...interface{}) {
 	m.mu.Lock()
@@ -267,8 +268,16 @@ func (m *machine) build() {
 	s.Handle("p.$id", opts(res.Parallel(true))...)
 	sub := res.NewMux("")
 	sub.Handle("$id", opts(res.Group("mm.${id}"))...)
+	// a full-wildcard pattern inside the mounted mux whose group template is shared with t.$tag.$id
+	sub.Handle("w.$g.>", opts(res.Group("tg.${g}"))...)
 	s.Mount("m", sub)
+	// registered through the parent after mounting: default group, and a ${tag} group
+	s.Handle("m.fixed", opts()...)
+	s.Handle("m.q.$id", opts(res.Group("mm.${id}"))...)
 	m.entries = []refmux.Entry{
+		{Pattern: "svc.m.w.$g.>", Marker: 5, Group: "tg.${g}"},
+		{Pattern: "svc.m.fixed", Marker: 6},
+		{Pattern: "svc.m.q.$id", Marker: 7, Group: "mm.${id}"},
 		{Pattern: "svc.r.$id", Marker: 0},
 		{Pattern: "svc.s.$id", Marker: 1, Group: "shared"},
 		{Pattern: "svc.t.$tag.$id", Marker: 2, Group: "tg.${tag}"},
